@@ -61,6 +61,23 @@ func c09a(c *Ctx, r *Report) {
 		switch x := s.(type) {
 		case *ast.RangeStmt:
 			if fv := fieldVar(info, x.X); fv != nil && fv.Name() == "Items" {
+				// nested form: for _, i := range g.getItemCloure(it) { change += IC.InsertItem(i) } — the range over
+				// IC.Items is evaluated once per pass, so the items inserted meanwhile wait for the next pass
+				if len(x.Body.List) == 1 {
+					if in, ok := x.Body.List[0].(*ast.RangeStmt); ok && len(in.Body.List) == 1 {
+						if ic, ok := unparen(in.X).(*ast.CallExpr); ok && len(ic.Args) == 1 {
+							if fn := callee(info, ic); fn != nil && fn.Name() == "getItemCloure" && identObj(info, ic.Args[0]) == identObj(info, x.Value) {
+								if as, ok := in.Body.List[0].(*ast.AssignStmt); ok && as.Tok == token.ADD_ASSIGN && identObj(info, as.Lhs[0]) == change {
+									if call, ok := as.Rhs[0].(*ast.CallExpr); ok && len(call.Args) == 1 {
+										if fn2 := callee(info, call); fn2 != nil && fn2.Name() == "InsertItem" && identObj(info, call.Args[0]) == identObj(info, in.Value) {
+											collectAll, insertAll = true, true
+										}
+									}
+								}
+							}
+						}
+					}
+				}
 				// items = append(items, g.getItemCloure(it)...)
 				if len(x.Body.List) == 1 {
 					if as, ok := x.Body.List[0].(*ast.AssignStmt); ok && isAppendSelf(info, as.Lhs[0], as.Rhs[0]) {
@@ -337,6 +354,43 @@ func c09b(c *Ctx, r *Report) {
 		}
 		if fv := fieldVar(info, rs.X); fv == nil || fv.Name() != "LR0Closure" {
 			return true
+		}
+		if len(rs.Body.List) == 3 {
+			// guard-clause form: `if len(a) != len(b) { continue }; for i … { if *a[i] != *b[i] { continue <candidates> } }; return index, true`
+			label := ""
+			if ls, isL := parentMap(f.Decl.Body)[rs].(*ast.LabeledStmt); isL {
+				label = ls.Label.Name
+			}
+			lenGuard, allPos, ret := false, false, false
+			if is, isIf := rs.Body.List[0].(*ast.IfStmt); isIf && is.Else == nil && len(is.Body.List) == 1 {
+				if br, isB := is.Body.List[0].(*ast.BranchStmt); isB && br.Tok == token.CONTINUE && (br.Label == nil || br.Label.Name == label) {
+					if be, isBE := unparen(is.Cond).(*ast.BinaryExpr); isBE && be.Op == token.NEQ && strings.HasPrefix(exprString(be.X), "len(") && strings.HasPrefix(exprString(be.Y), "len(") &&
+						strings.Contains(exprString(be.X)+exprString(be.Y), exprString(rs.Value)+".Items") {
+						lenGuard = true
+					}
+				}
+			}
+			if full, body, idx := fullRangeLoop(info, rs.Body.List[1]); full != nil && len(body.List) == 1 && label != "" {
+				if is, isIf := body.List[0].(*ast.IfStmt); isIf && is.Else == nil && len(is.Body.List) == 1 {
+					if br, isB := is.Body.List[0].(*ast.BranchStmt); isB && br.Tok == token.CONTINUE && br.Label != nil && br.Label.Name == label {
+						if be, isBE := unparen(is.Cond).(*ast.BinaryExpr); isBE && be.Op == token.NEQ &&
+							strings.Contains(exprString(be.X), "["+idx.Name()+"]") && strings.Contains(exprString(be.Y), "["+idx.Name()+"]") &&
+							strings.HasPrefix(exprString(be.X), "*") && strings.HasPrefix(exprString(be.Y), "*") {
+							allPos = true
+						}
+					}
+				}
+			}
+			if rt, isRt := rs.Body.List[2].(*ast.ReturnStmt); isRt && len(rt.Results) == 2 && identObj(info, rt.Results[0]) == identObj(info, rs.Key) {
+				if cv := constOf(info, rt.Results[1]); cv != nil && cv.Kind() == constant.Bool && constant.BoolVal(cv) {
+					ret = true
+				}
+			}
+			ok = lenGuard && allPos && ret
+			if !ok {
+				why = fmt.Sprintf("guard-clause form: candidates of another length skipped: %v, every position compared (mismatch → next candidate): %v, returns the candidate's index when all match: %v", lenGuard, allPos, ret)
+			}
+			return false
 		}
 		if len(rs.Body.List) != 1 {
 			why = "the candidate loop does more than one length-guarded comparison"
